@@ -26,3 +26,26 @@ pub assume_specification<T, F: FnOnce(T) -> bool>[ Option::<T>::is_some_and ](o:
 pub assume_specification<T, F: FnOnce(T) -> bool>[ Option::<T>::is_none_or ](o: Option<T>, f: F) -> (r: bool)
     requires o is Some ==> f.requires((o->Some_0,)),
     ensures o is None ==> r, o is Some ==> f.ensures((o->Some_0,), r);
+pub assume_specification<T>[ bool::then_some ](b: bool, t: T) -> (r: Option<T>)
+    ensures r == (if b { Some(t) } else { None });
+pub assume_specification<T, P: FnOnce(&T) -> bool>[ Option::<T>::filter ](o: Option<T>, p: P) -> (r: Option<T>)
+    requires o is Some ==> p.requires((&o->Some_0,)),
+    ensures o is None ==> r is None, o is Some ==> (r == o || r is None) && p.ensures((&o->Some_0,), r is Some);
+pub assume_specification<T, U, D: FnOnce() -> U, F: FnOnce(T) -> U>[ Option::<T>::map_or_else ](o: Option<T>, default: D, f: F) -> (r: U)
+    requires o is None ==> default.requires(()), o is Some ==> f.requires((o->Some_0,)),
+    ensures o is None ==> default.ensures((), r), o is Some ==> f.ensures((o->Some_0,), r);
+pub assume_specification<T>[ Option::<T>::or ](o: Option<T>, optb: Option<T>) -> (r: Option<T>)
+    ensures r == (if o is Some { o } else { optb });
+pub assume_specification<T>[ Option::<T>::replace ](o: &mut Option<T>, value: T) -> (r: Option<T>)
+    ensures r == *old(o), *final(o) == Some(value);
+pub assume_specification<T, E, U, F: FnOnce(T) -> Result<U, E>>[ Result::<T, E>::and_then ](res: Result<T, E>, op: F) -> (r: Result<U, E>)
+    requires res is Ok ==> op.requires((res->Ok_0,)),
+    ensures res is Err ==> r is Err && r->Err_0 == res->Err_0, res is Ok ==> op.ensures((res->Ok_0,), r);
+pub assume_specification<T, E, F: FnOnce(&T)>[ Result::<T, E>::inspect ](res: Result<T, E>, f: F) -> (r: Result<T, E>)
+    requires res is Ok ==> f.requires((&res->Ok_0,)),
+    ensures r == res;
+pub assume_specification<T, E, U, F: FnOnce(T) -> U>[ Result::<T, E>::map_or ](res: Result<T, E>, default: U, f: F) -> (r: U)
+    requires res is Ok ==> f.requires((res->Ok_0,)),
+    ensures res is Err ==> r == default, res is Ok ==> f.ensures((res->Ok_0,), r);
+pub assume_specification<T, E>[ Result::<T, E>::unwrap_or ](res: Result<T, E>, default: T) -> (r: T)
+    ensures r == (match res { Ok(t) => t, Err(_) => default });
